@@ -95,6 +95,90 @@ fn maybe_inject(tid: u8, pc: usize) {
     }
 }
 
+// ---- turnstile for several OS threads running models "concurrently" (C16): exactly one OS
+// thread holds the token; at a gate the holder draws the next holder from the shared PRNG.
+pub struct Turnstile {
+    pub state: std::sync::Mutex<TurnState>,
+    pub cv: std::sync::Condvar,
+}
+pub struct TurnState {
+    pub turn: usize,
+    pub alive: Vec<bool>,
+    pub rng: crate::rng::Rng,
+    pub handoffs: u64,
+    /// a thread that is being starved (stall fault) until `stall_left` gate passes have happened
+    pub stalled: Option<usize>,
+    pub stall_left: u64,
+}
+thread_local! {
+    static GATE: RefCell<Option<(std::sync::Arc<Turnstile>, usize)>> = RefCell::new(None);
+}
+pub fn set_gate(g: Option<(std::sync::Arc<Turnstile>, usize)>) {
+    GATE.with(|c| *c.borrow_mut() = g);
+}
+impl Turnstile {
+    pub fn new(n: usize, rng: crate::rng::Rng) -> Turnstile {
+        Turnstile {
+            state: std::sync::Mutex::new(TurnState { turn: 0, alive: vec![true; n], rng, handoffs: 0, stalled: None, stall_left: 0 }),
+            cv: std::sync::Condvar::new(),
+        }
+    }
+    /// wait until it is `me`'s turn
+    pub fn wait_turn(&self, me: usize) {
+        let mut st = self.state.lock().unwrap();
+        while st.turn != me {
+            st = self.cv.wait(st).unwrap();
+        }
+    }
+    /// called by the token holder: maybe pass the token on, then wait to get it back
+    pub fn gate(&self, me: usize) {
+        let mut st = self.state.lock().unwrap();
+        debug_assert_eq!(st.turn, me);
+        if st.stall_left > 0 {
+            st.stall_left -= 1;
+            if st.stall_left == 0 {
+                st.stalled = None;
+            }
+        }
+        let cands: Vec<usize> = (0..st.alive.len()).filter(|&i| st.alive[i] && Some(i) != st.stalled).collect();
+        if cands.is_empty() {
+            return;
+        }
+        let k = st.rng.below(cands.len());
+        let next = cands[k];
+        if next != me {
+            st.turn = next;
+            st.handoffs += 1;
+            self.cv.notify_all();
+            while st.turn != me {
+                st = self.cv.wait(st).unwrap();
+            }
+        }
+    }
+    /// the holder is done: hand the token to someone alive
+    pub fn finish(&self, me: usize) {
+        let mut st = self.state.lock().unwrap();
+        st.alive[me] = false;
+        if st.stalled == Some(me) {
+            st.stalled = None;
+        }
+        st.stalled = None;
+        let cands: Vec<usize> = (0..st.alive.len()).filter(|&i| st.alive[i]).collect();
+        if !cands.is_empty() {
+            let k = st.rng.below(cands.len());
+            st.turn = cands[k];
+            st.handoffs += 1;
+        }
+        self.cv.notify_all();
+    }
+}
+fn gate_point() {
+    let g = GATE.with(|c| c.borrow().clone());
+    if let Some((ts, me)) = g {
+        ts.gate(me);
+    }
+}
+
 fn rec(tid: u8, pc: usize, kind: HK, res: Option<u64>) {
     REC.with(|r| r.borrow_mut().push(HEv { tid, pc: pc as u16, kind, res }));
 }
@@ -209,6 +293,9 @@ fn thread_body(env: Rc<Env>, tid: u8, initial_arcs: Vec<(usize, LArc)>) {
     for pc in 0..n {
         let op = &p.threads[tid as usize][pc];
         rec(tid, pc, HK::Inv, None);
+        if pc % 3 == 0 {
+            gate_point();
+        }
         maybe_inject(tid, pc);
         let g = OpGuard { tid, pc };
         let res = exec(&mut cx, op, pc);
@@ -580,6 +667,7 @@ fn exec(cx: &mut Ctx, op: &Op, pc: usize) -> Option<u64> {
 }
 
 fn model_body(p: StdArc<Program>) {
+    gate_point();
     let nt = p.n_threads();
     let mut senders = Vec::new();
     let mut receivers = Vec::new();
@@ -696,7 +784,7 @@ pub fn builder_from(cfg: &Config) -> loom::model::Builder {
     b.max_branches = cfg.max_branches;
     b.preemption_bound = cfg.preemption_bound;
     b.max_permutations = cfg.max_permutations;
-    b.max_duration = None;
+    b.max_duration = cfg.max_duration_ms.map(std::time::Duration::from_millis);
     b.checkpoint_interval = cfg.checkpoint_interval;
     b.checkpoint_file = cfg.checkpoint_file.as_ref().map(|s| s.into());
     b.expect_explicit_explore = cfg.expect_explicit_explore;
@@ -714,7 +802,7 @@ pub fn run_loom(
 ) -> LoomRun {
     let mut b = builder_from(cfg);
     // harness iteration cap, unless the run configures these limits itself
-    let harness_cap = cfg.max_permutations.is_none() && cfg.checkpoint_file.is_none();
+    let harness_cap = cfg.max_permutations.is_none() && cfg.checkpoint_file.is_none() && cfg.max_duration_ms.is_none();
     if harness_cap {
         b.checkpoint_interval = 1;
         b.max_permutations = Some(cfg.iter_cap + 1);
